@@ -15,9 +15,10 @@ import subprocess
 
 import pooldefs
 from framework import HARNESS
-from tla import OUT, ToolError, run_tlc, to_tla
+from tla import OUT, ToolError, run_tlc, to_tla, confirm_rejection
 
-SRC = "/repo/nexosim/src/executor/mt_executor.rs"
+REPO = os.environ.get("VERIF_REPO", "/repo")
+SRC = REPO + "/nexosim/src/executor/mt_executor.rs"
 DELAY_POINTS = [20, 21, 22, 23, 24, 25, 26, 27, 28, 29, 30, 31, 35, 36]
 
 
@@ -51,7 +52,7 @@ def extract_structure():
     return dict(fold_first=fold_first, recheck=recheck, hand_over=hand_over, flag_under_lock=flag_under_lock())
 
 
-INJ_SRC = "/repo/nexosim/src/executor/mt_executor/injector.rs"
+INJ_SRC = REPO + "/nexosim/src/executor/mt_executor/injector.rs"
 
 
 def fn_body(src, name):
@@ -188,8 +189,11 @@ def validate(name, scen, nw, struct, runs, wd, tag, invariants):
             if n < pos + len(r):
                 accepted += i
                 k = n - pos
-                rejections.append((r, k, r[k] if k < len(r) else None, reason))
                 remaining = remaining[i + 1:]
+                if confirm_rejection(mod, mod + ".cfg", wd, tag, r, res, heap="4g"):
+                    rejections.append((r, k, r[k] if k < len(r) else None, reason))
+                else:
+                    accepted += 1
                 break
             pos += len(r)
         else:
